@@ -212,3 +212,51 @@ package core
 //@   call implPublishMetadata#2 bind e2 = $ret0
 //@   ensures [always-updates] err == nil ==> ud_set && ud == nil
 //@   ensures [propagate] (e1_set && e1 != nil) || (e2_set && e2 != nil) || (ud_set && ud != nil) ==> err != nil
+
+// ---- labels (C08): one key per (repo, name); set = overwrite that key only; delete = that key only -
+//@ func (*Label).UploadDescriptor
+//@   requires label != nil && bundle != nil && bundle.contextStores != nil && getMetaStore(bundle.contextStores) != nil
+// any name the API accepts must be listable afterwards: names with "/" are not (known finding K10)
+//@   ensures [listable-name] err == nil ==> !contains(label.Descriptor.Name, "/")
+//@   call RepoExists#1 assert [repo] $repo == bundle.RepoID
+//@   call GetArchivePathToLabel#1 assert [key-parts] $repo == bundle.RepoID && $labelName == label.Descriptor.Name
+//@   call GetArchivePathToLabel#2 assert [key-parts] $repo == bundle.RepoID && $labelName == label.Descriptor.Name
+//@   call GetArchivePathToLabel#1 bind k1 = $ret0
+//@   call GetArchivePathToLabel#2 bind k2 = $ret0
+//@   call PutCRC#1 assert [label-key] k1_set && $key == k1
+//@   call PutCRC#1 assert [overwrite] $noOverwrite == storage.OverWrite
+//@   call Put#1 assert [label-key] k2_set && $key == k2
+//@   call Put#1 assert [overwrite] $noOverwrite == storage.OverWrite
+//@   call PutCRC#1 bind e1 = $ret0
+//@   call Put#1 bind e2 = $ret0
+//@   ensures [points-to-bundle] err == nil ==> label.Descriptor.BundleID == bundle.BundleID
+//@   ensures [propagate] (e1_set && e1 != nil) || (e2_set && e2 != nil) ==> err != nil
+//@   ensures [one-write] err == nil ==> (e1_set && e1 == nil) || (e2_set && e2 == nil)
+
+//@ func (*Label).DownloadDescriptor
+//@   requires label != nil && bundle != nil && bundle.contextStores != nil && getMetaStore(bundle.contextStores) != nil
+//@   call GetArchivePathToLabel#1 assert [key-parts] $repo == bundle.RepoID && $labelName == label.Descriptor.Name
+//@   call GetArchivePathToLabel#1 bind pth = $ret0
+//@   call Has#1 assert [label-key] pth_set && $key == pth
+//@   call Get#1 assert [label-key] pth_set && $key == pth
+//@   call Has#1 bind has = $ret0
+//@   call Has#1 bind he = $ret1
+//@   ensures [not-found] has_set && he == nil && !has ==> err != nil
+
+//@ func DeleteLabel
+//@   requires stores != nil && getMetaStore(stores) != nil
+//@   call GetArchivePathToLabel#1 assert [key-parts] $repo == repo && $labelName == name
+//@   call GetArchivePathToLabel#1 bind pth = $ret0
+//@   call Delete#1 assert [only-that-key] pth_set && $key == pth
+//@   call Delete#1 bind de = $ret0
+//@   ensures [propagate] de_set && de != nil ==> ret0 != nil
+
+// the listing prefix is labels/{repo}/{prefix}: built by the model function from (repo, prefix)
+//@ func listLabelsChan$1
+//@   call GetArchivePathPrefixToLabels#1 assert [prefix-parts] $repo == repo && len($prefixes) == 1 && $prefixes[0] == prefix
+//@   call GetArchivePathPrefixToLabels#1 bind pfx = $ret0
+//@   call KeysPrefix#1 assert [listing] pfx_set && $prefix == pfx && $delimiter == "" && $token == next
+
+// a listed label is resolved under the name parsed from its key, and a descriptor that disagrees is an error
+//@ func getLabelAsync
+//@   send output#4 assert [named-as-key] $val.label.Name == apc.LabelName
